@@ -18,6 +18,8 @@ stack: key (k, j) <- getitem(block j of array k, (None, slice))              `st
 broadcast_to: old_index = 0 if bd == (1,) else i; np.broadcast_to(block, chunk_shape)   `broadcastRows`, `broadcastLen1`
 tile: block([c] * nrep) = concatenate of the copies                          `tileBlocks`
 diff: r[1:] - r[:-1] (elementwise on the unified chunks)                     `diff1`, `elemwiseBlocks`
+concatenate (2-d, along either axis) / block([[a, b], [c, d]]) / tile(A, (r0, r1))   `Grid.hcat`, `Grid.vcat`, `block2x2`, `Grid.tile`
+pad_edge, mode="constant" (one axis)                                          `padConstBlocks`
 Import-free (linked into the native driver).
 -/
 namespace Dask.Structural
@@ -120,5 +122,37 @@ def diff1 (xs : List Int) : List Int := List.zipWith (· - ·) (xs.drop 1) xs.dr
 def diffN : Nat → List Int → List Int
   | 0, xs => xs
   | n + 1, xs => diffN n (diff1 xs)
+
+/-! ### concatenate along an axis of a 2-d array, block, tile -/
+
+/-- `concatenate([g1, g2], axis=1)` of two arrays with the same (unified) row chunks: chunks `cc1 + cc2`, key `(i, j)` is
+    block `j - cum_dims[k]` of array `k = bisect(cum_dims, j) - 1` -/
+def Grid.hcat {α} (g1 g2 : Grid α) : Grid α :=
+  ⟨g1.rc, g1.cc ++ g2.cc, fun i j r s => if j < g1.cc.length then g1.blk i j r s else g2.blk i (j - g1.cc.length) r s⟩
+
+/-- `concatenate([g1, g2], axis=0)` -/
+def Grid.vcat {α} (g1 g2 : Grid α) : Grid α :=
+  ⟨g1.rc ++ g2.rc, g1.cc, fun i j r s => if i < g1.rc.length then g1.blk i j r s else g2.blk (i - g1.rc.length) j r s⟩
+
+/-- `n * [g]` concatenated along axis 1 / axis 0 (what `tile` hands to `block`) -/
+def Grid.hrep {α} (g : Grid α) : Nat → Grid α
+  | 0 => ⟨g.rc, [], g.blk⟩
+  | n + 1 => g.hcat (g.hrep n)
+
+def Grid.vrep {α} (g : Grid α) : Nat → Grid α
+  | 0 => ⟨[], g.cc, g.blk⟩
+  | n + 1 => g.vcat (g.vrep n)
+
+/-- `block([[a, b], [c, d]])`: innermost lists along the last axis, then along the first -/
+def block2x2 {α} (a b c d : Grid α) : Grid α := (a.hcat b).vcat (c.hcat d)
+
+/-- `tile(A, (r0, r1))` = `block(r0 * [r1 * [A]])` -/
+def Grid.tile {α} (g : Grid α) (r0 r1 : Nat) : Grid α := (g.hrep r1).vrep r0
+
+
+/-- `pad(x, (l, r), mode="constant", constant_values=v)` along one axis: `concatenate([broadcast_to(v, l, chunks), x,
+    broadcast_to(v, r, chunks)])` with the pads chunked by `get_pad_shapes_chunks` (`padChunks`) -/
+def padConstBlocks {α} (chunks : List Nat) (blocks : List (List α)) (l r : Nat) (v : α) : List (List α) :=
+  splitBy (padChunks true chunks l) (List.replicate l v) ++ blocks ++ splitBy (padChunks true chunks r) (List.replicate r v)
 
 end Dask.Structural
